@@ -130,4 +130,84 @@ theorem norm_stage_off (big : Bool) (N rb rs ab S : Nat) (off : Int) (H : Int) (
     obtain ⟨q, e, he, hb'⟩ := this
     exact ⟨q, e, by linear_combination he, hb'⟩
 
+/-- **same radix: balanced digits.**  When the accumulator and the result have the same radix (every product and key switch of the
+CKKS layer), `vec_znx_big_normalize` is the `inter` kernel whose digits are balanced (`C08.normalize_inter_value`), for every offset:
+`|d| ≤ 2^(b−1)` -/
+theorem same_radix_balanced (big : Bool) (N b rs : Nat) (off : Int) (H : Int) (c C : Col)
+    (hb1 : 1 ≤ b) (hb : b ≤ 62) (hH0 : 0 ≤ H) (hH : H + 8 ≤ 2 ^ (bitsOf big - 2)) (hc : ∀ l ∈ c, ∀ x ∈ l, |x| ≤ H)
+    (h : Core.bigNormalizeOff big N b rs off c b = some C) : ∀ l ∈ C, ∀ x ∈ l, |x| ≤ 2 ^ (b - 1) := by
+  have hbound : ∀ t, ∀ x ∈ coefAt c t, |x| ≤ H := fun t => coefAt_bound hH0 hc t
+  have hp62 : (2 : Int) ^ b ≤ 2 ^ 62 := pow_le_pow_right₀ (by norm_num) hb
+  rw [bigNormalizeOff_eq] at h
+  have key : (∀ l ∈ C, l.length = N) ∧ ∀ t, t < N → ∀ d ∈ coefAt C t, |d| ≤ 2 ^ (b - 1) := by
+    cases big with
+    | false =>
+      have hinv := CoreEnc.mapCoefs?_inv _ _ _ _ h
+      refine ⟨hinv.2.1, fun t ht => ?_⟩
+      obtain ⟨o, ho, hco⟩ := hinv.2.2 t ht
+      simp only [normalizeCoef, if_true] at ho
+      injection ho with ho
+      have hr : NormL.HeadRoom 64 b 0 H := ⟨by norm_num, by omega, by omega, hH0, by
+        have : H + 8 ≤ 2 ^ 62 := by simpa [bitsOf] using hH
+        norm_num at hp62 ⊢; omega⟩
+      have hv := C08.normalize_inter_value hr rs off (coefAt c t) (hbound t)
+      rw [ho] at hv
+      rw [hco hv.1]
+      intro d hd
+      have := hv.2.1 d hd
+      unfold NormL.Balanced at this
+      rw [abs_le]; constructor <;> linarith [this.1, this.2]
+    | true =>
+      have hinv := CoreEnc.mapCoefs?_inv _ _ _ _ h
+      refine ⟨hinv.2.1, fun t ht => ?_⟩
+      obtain ⟨o, ho, hco⟩ := hinv.2.2 t ht
+      simp only [bigNormalizeCoef128, if_true] at ho
+      injection ho with ho
+      have hr : NormL.HeadRoom 128 b 0 H := ⟨by norm_num, by omega, by omega, hH0, by
+        have : H + 8 ≤ 2 ^ 126 := by simpa [bitsOf] using hH
+        norm_num at hp62 ⊢; omega⟩
+      have hv := C08.normalize_inter_value hr rs off (coefAt c t) (hbound t)
+      have hlen : o.length = rs := by rw [← ho, List.length_map]; exact hv.1
+      rw [hco hlen, ← ho]
+      intro d hd
+      obtain ⟨d0, hd0, rfl⟩ := List.mem_map.mp hd
+      have := hv.2.1 d0 hd0
+      unfold NormL.Balanced at this
+      have hh : (2 : Int) ^ (b - 1) ≤ 2 ^ 61 := pow_le_pow_right₀ (by norm_num) (by omega)
+      have hw : w64 d0 = d0 := by
+        unfold w64
+        norm_num at hh
+        omega
+      rw [hw, abs_le]; constructor <;> linarith [this.1, this.2]
+  intro l hl x hx
+  obtain ⟨t, ht, rfl⟩ := List.getElem_of_mem hx
+  have htN : t < N := by rw [← key.1 l hl]; exact ht
+  apply key.2 t htN
+  unfold coefAt
+  apply List.mem_map.mpr
+  exact ⟨l, hl, by simp [List.getD_eq_getElem?_getD, List.getElem?_eq_getElem ht]⟩
+
+theorem mapM_mem {α β : Type} (f : α → Option β) : ∀ (L : List α) (cs : List β), L.mapM f = some cs →
+    ∀ c ∈ cs, ∃ x ∈ L, f x = some c
+  | [], cs, h => by simp at h; subst h; simp
+  | x :: xs, cs, h => by
+    simp only [List.mapM_cons, Option.bind_eq_bind, Option.bind_eq_some_iff] at h
+    obtain ⟨y, hy, ys, hys, h⟩ := h
+    simp only [Option.pure_def, Option.some.injEq] at h
+    subst h
+    intro c hc
+    rcases List.mem_cons.mp hc with rfl | hc
+    · exact ⟨x, by simp, hy⟩
+    · obtain ⟨x', hx', h'⟩ := mapM_mem f xs ys hys c hc
+      exact ⟨x', by simp [hx'], h'⟩
+
+/-- the normalisation stage, same radix: balanced digits -/
+theorem norm_stage_balanced (big : Bool) (N b rs : Nat) (off : Int) (H : Int) (L cs : List Col)
+    (hb1 : 1 ≤ b) (hb : b ≤ 62) (hH0 : 0 ≤ H) (hH : H + 8 ≤ 2 ^ (bitsOf big - 2)) (hbd : ∀ c ∈ L, ∀ l ∈ c, ∀ x ∈ l, |x| ≤ H)
+    (h : L.mapM (fun c => Core.bigNormalizeOff big N b rs off c b) = some cs) :
+    ∀ c ∈ cs, ∀ l ∈ c, ∀ x ∈ l, |x| ≤ 2 ^ (b - 1) := by
+  intro c hc
+  obtain ⟨x, hx, hxc⟩ := mapM_mem _ L cs h c hc
+  exact same_radix_balanced big N b rs off H x c hb1 hb hH0 hH (hbd x hx) hxc
+
 end Ckks.NormOff
